@@ -264,6 +264,11 @@ func (r *runner) line() string {
 func (r *runner) op(f []string) string {
 	switch f[0] {
 	case "begin":
+		// operations of one wrapper are consecutive: a begin while one is in progress (a shrunk replay can
+		// contain that) is ignored, here and in the driver
+		if r.cur != nil && !r.cur.finished {
+			return r.line()
+		}
 		r.begin(f[1] == "r", vh.Atoi(f[2]), f[3] == "1")
 		return r.line()
 	case "begin2":
